@@ -67,6 +67,7 @@ type rdbCfg struct {
 	Filter    string `json:"filter,omitempty"`    // "" (db 5 + prefix flt: black-listed) | prefix-black | prefix-white | slot-white | db-black
 	FilterDB  int    `json:"filterdb,omitempty"`  // the black-listed database of Filter db-black
 	TargetVer string `json:"targetver,omitempty"` // Redis.Version of the target; "" = 7.2.0 without version gating in the double (legacy scenarios)
+	VerifyCrc bool   `json:"verifycrc,omitempty"` // the global channel.verifyCrc flag (config.GetSyncerConfig().Channel.VerifyCrc) during this execution
 	HashTag   bool   `json:"hashtag,omitempty"`   // ReplaceHashTag: the first "{" and the first "}" of a key name are removed on the target
 }
 
@@ -443,6 +444,20 @@ func rdbRun(scn rdbScenario, built *rdbBuilt, ch *mc.Chooser, hooks *rdbHooks) *
 		oldPipe := config.RdbPipeSize
 		config.RdbPipeSize = scn.Cfg.PipeSize
 		defer func() { config.RdbPipeSize = oldPipe }()
+	}
+	{
+		// channel.verifyCrc is a process-wide setting the replay may look at; the harness reader
+		// stands for a snapshot that is replayed while its transfer is still running, i.e. nothing
+		// upstream has verified the file, whatever the flag says
+		gc := config.GetSyncerConfig()
+		oldCh := gc.Channel
+		ch := &config.ChannelConfig{}
+		if oldCh != nil {
+			ch = oldCh.Clone()
+		}
+		ch.VerifyCrc = scn.Cfg.VerifyCrc
+		gc.Channel = ch
+		defer func() { gc.Channel = oldCh }()
 	}
 	vtime.Reset()
 	vsel.SetPicker(nil)
